@@ -22,6 +22,10 @@ typedef std::complex<Rat> CRat;
 inline CRat operator * (double a, const CRat& z) { return CRat (Rat(a)*z.real(), Rat(a)*z.imag()); }
 inline CRat operator * (const CRat& z, double a) { return CRat (z.real()*Rat(a), z.imag()*Rat(a)); }
 inline CRat operator / (const CRat& z, double a) { return CRat (z.real()/Rat(a), z.imag()/Rat(a)); }
+inline CRat operator / (double a, const CRat& z) { CRat r (Rat(a), Rat(0)); r /= z; return r; }
+inline CRat operator - (const CRat& z, double a) { return CRat (z.real()-Rat(a), z.imag()); }
+inline bool operator == (const CRat& z, double a) { return z.real() == Rat(a) && z.imag() == Rat(0); }
+inline bool operator != (const CRat& z, double a) { return !(z == a); }
 inline CRat operator + (double a, const CRat& z) { return CRat (Rat(a)+z.real(), z.imag()); }
 inline CRat operator + (const CRat& z, double a) { return CRat (z.real()+Rat(a), z.imag()); }
 
